@@ -161,9 +161,18 @@ def impl_case(case):
             res = py_simulate_model(np.linspace(0, 1.5, 4), Model=Mx, stochastic=False, return_dataframe=True)
             return {s_: [fhex(v) for v in res[s_]] for s_ in order}
         except Exception as e: return "EXC:" + type(e).__name__
-    raw_h, raw_f = _raw(M), _raw(fresh)
+    def _decoy():
+        """an unrelated model with the same number of species, every one of them changing, simulated in between: what the fresh model
+        then reports must not depend on it (seeded change S5_C08: a derivative buffer kept between deterministic runs of equal size,
+        with the entries of reaction-less species never written)"""
+        try:
+            D = Model(species=list(order), reactions=[([], [s_], "massaction", {"k": 1.0 + i_}) for i_, s_ in enumerate(order)], initial_condition_dict={s_: 1.0 for s_ in order})
+            py_simulate_model(np.linspace(0, 1.0, 3), Model=D, stochastic=False, return_dataframe=False)
+        except Exception: pass
+    raw_h = _raw(M); _decoy(); raw_f = _raw(fresh)
     if raw_h != raw_f: problems.insert(0, "history dependence (simulation before any re-initialisation): %r vs built at once %r" % (str(raw_h)[:160], str(raw_f)[:160]))
-    out = {"hist": _observe(M, case["seed"]), "fresh": _observe(fresh, case["seed"]), "problems": problems, "order": order}
+    obs_h = _observe(M, case["seed"]); _decoy()
+    out = {"hist": obs_h, "fresh": _observe(fresh, case["seed"]), "problems": problems, "order": order}
     return out
 
 def driver_line(case, r):
